@@ -187,7 +187,7 @@ class RunEnv:
                        r.get('fallback', False))
         if 'map' in r:
             return Map(self, name, r['map'], r.get('fallback', False),
-                       r.get('computed', ()))
+                       r.get('computed', ()), r.get('miss'))
         if 'pair' in r:
             return (r['pair'][0], self.materialise(r['pair'][1], name, k))
         if 'strobj' in r:
@@ -252,8 +252,10 @@ class Obj:
 
 
 class Map:
-    def __init__(self, env, name, data, fallback=False, computed=()):
+    def __init__(self, env, name, data, fallback=False, computed=(),
+                 miss=None):
         self._env, self._name, self._fb = env, name, fallback
+        self._miss = miss               # how a missing key is reported
         self._computed = computed       # keys whose value is computed on
         self._d = {k: env.materialise(v, '%s.%s' % (name, k), 0)  # access
                    for k, v in data.items()}
@@ -265,6 +267,14 @@ class Map:
             return self._d[k]
         if self._fb and (k in self._env.sites or k in self._env.extra_names):
             return self._env.extra_names.get(k) or self._env.sites[k]
+        # mappings in the wild report a miss with all sorts of KeyError
+        # arguments (shelve: the encoded key; others: a message, nothing)
+        if self._miss == 'bytes':
+            raise KeyError(k.encode('utf-8') if isinstance(k, str) else k)
+        if self._miss == 'bare':
+            raise KeyError()
+        if self._miss == 'msg':
+            raise KeyError('no such key: %r' % (k,))
         raise KeyError(k)
 
     def get(self, k, default=None):
